@@ -36,19 +36,34 @@ def gen_env(r: random.Random, runner: Optional[str] = None) -> Dict[str, Any]:
     }
 
 
+# construct name -> {type: production indices in the typed generators below}
+FEATURES: Dict[str, Dict[str, List[int]]] = {
+    "arith": {"int": [0, 1, 2]}, "divmod": {"int": [3]}, "cond": {"int": [4], "bool": [12], "str": [2]},
+    "size": {"int": [5, 8]}, "index": {"int": [6]}, "mapkey": {"int": [7]}, "host": {"int": [9]},
+    "int_conv": {"int": [10]}, "cmp": {"bool": [0, 1, 2]}, "and_or": {"bool": [3, 4]},
+    "not": {"bool": [5]}, "has": {"bool": [6]}, "macro_bool": {"bool": [7, 8]},
+    "strfn": {"bool": [9]}, "matches": {"bool": [9]}, "in": {"bool": [10]}, "streq": {"bool": [11]},
+    "concat": {"str": [0], "list": [3]}, "string_conv": {"str": [1]}, "listlit": {"list": [0]},
+    "map": {"list": [1]}, "filter": {"list": [2]},
+}
+
+
 class ExprGen:
     """Generates expressions over the names visible in an environment.  `salt` makes the constants
     of one generator instance distinctive (used by C16 so that a value crossing threads shows)."""
 
     def __init__(self, r: random.Random, decls: Dict[str, str], salt: int = 0,
                  undeclared: bool = True, host: Optional[List[str]] = None,
-                 size_focus: bool = False) -> None:
+                 size_focus: bool = False, features: Optional[List[str]] = None) -> None:
         self.r = r
         self.decls = decls
         self.salt = salt
         self.undeclared = undeclared
         self.host = host or []
         self.size_focus = size_focus
+        # swarm testing: the constructs featured by this run are chosen far more often, so that
+        # several threads / programs of one run use the same (otherwise rare) library function
+        self.features = features or []
         self.macro_vars: List[Tuple[str, str]] = []  # (name, type) in scope
 
     # -- helpers --------------------------------------------------------------------------------
@@ -78,6 +93,13 @@ class ExprGen:
             return "." + n  # root-scope reference
         return n
 
+    def _pick(self, ty: str, n: int) -> int:
+        if self.features and self.r.random() < 0.4:
+            ks = [k for f in self.features for k in FEATURES.get(f, {}).get(ty, [])]
+            if ks:
+                return self.r.choice(ks)
+        return self.r.randrange(n)
+
     # -- typed generators -----------------------------------------------------------------------
     def int_(self, d: int) -> str:
         r = self.r
@@ -86,7 +108,7 @@ class ExprGen:
             if v is not None and r.random() < 0.7:
                 return v
             return str(self.const())
-        k = r.randrange(12)
+        k = self._pick("int", 12)
         if self.size_focus and r.random() < 0.4:
             lst = self.list_(d - 1)
             return f"size({lst})" if r.random() < 0.6 else f"{lst}.size()"
@@ -127,7 +149,7 @@ class ExprGen:
             if v is not None and r.random() < 0.6:
                 return v
             return '"' + r.choice(["", "a", "ab", "abc", "xyz"]) + str(self.salt) + '"'
-        k = r.randrange(4)
+        k = self._pick("str", 4)
         if k == 0:
             return f"({self.str_(d - 1)} + {self.str_(d - 1)})"
         if k == 1:
@@ -144,7 +166,7 @@ class ExprGen:
                 return v
             n = r.randrange(0, 4)
             return "[" + ", ".join(str(self.const() + i) for i in range(n)) + "]"
-        k = r.randrange(5)
+        k = self._pick("list", 5)
         if k == 0:
             return "[" + ", ".join(self.int_(d - 1) for _ in range(r.randrange(1, 4))) + "]"
         if k in (1, 2):
@@ -171,7 +193,7 @@ class ExprGen:
         r = self.r
         if d <= 0 or r.random() < 0.15:
             return r.choice(["true", "false", f"{self.int_(0)} > {self.const()}"])
-        k = r.randrange(13)
+        k = self._pick("bool", 13)
         if k <= 2:
             op = r.choice(["<", "<=", ">", ">=", "==", "!="])
             return f"({self.int_(d - 1)} {op} {self.int_(d - 1)})"
@@ -197,7 +219,7 @@ class ExprGen:
             m = r.choice(["all", "exists", "exists_one", "all", "exists"])
             return f"{src}.{m}({v}, {body})"
         if k == 9:
-            if r.random() < 0.4:
+            if r.random() < 0.4 or "matches" in self.features:
                 # regular expressions; the pattern depends on the salt so that threads differ
                 pats = ["^a", "b$", "^[a-z]+$", "a.c", "^$", "[0-9]+", "^[^0-9]*$", "c"]
                 # rotated by the salt: generators that share a shape still use different patterns
@@ -254,13 +276,18 @@ INVALID_TEXTS = ["1 +", "(x", "x ? 1", "[1, 2", "x +* 2", '"abc', "1 2", "a..b",
 
 def gen_expr(r: random.Random, decls: Dict[str, str], salt: int = 0, depth: Optional[int] = None,
              invalid_share: float = 0.04, host: Optional[List[str]] = None,
-             size_focus: bool = False, deep_share: float = 0.0) -> str:
+             size_focus: bool = False, deep_share: float = 0.0,
+             features: Optional[List[str]] = None) -> str:
     if r.random() < invalid_share:
         return r.choice(INVALID_TEXTS)
     if deep_share and r.random() < deep_share:
         return gen_deep_expr(r, decls, salt)
-    g = ExprGen(r, decls, salt, host=host, size_focus=size_focus)
+    g = ExprGen(r, decls, salt, host=host, size_focus=size_focus, features=features)
     d = depth if depth is not None else r.choice([1, 2, 2, 3, 3, 4])
+    if features:
+        d = max(d, 2)
+        bool_feats = any("bool" in FEATURES.get(f, {}) for f in features)
+        return g.bool_(d) if (bool_feats and r.random() < 0.6) else g.any_(d)
     if size_focus:
         return g.int_(max(d, 1)) if r.random() < 0.7 else g.bool_(max(d, 2))
     return g.any_(d)
